@@ -14,14 +14,15 @@ TRUSTED = [
     "hand model Model/PyLit.v of CPython repr() for None/bool/int/float/str/list/tuple/set/dict and of the canonical "
     "sub-language of ast.literal_eval that repr produces (validated against the real put/reload path and eval_var)",
     "CPython float repr / float() enter as Section variables frepr/fparse with hypothesis H_float (finite floats print as "
-    "a number token that parses back to the same float); str.isprintable enters as the Section variable `printable`; "
+    "a number token that parses back to the same float, the others print as inf/-inf/nan); str.isprintable enters as "
+    "the Section variable `printable`; "
     "both are instantiated per case from the running interpreter",
     "the dict built by literal_eval from distinct keys iterates in source order; a set literal has the elements listed",
     "sqlite stores and returns the repr text unchanged (TEXT column)",
 ]
 ASSUMES = [
-    "template variable values are Python literals of the modelled types (bytes, complex, Ellipsis are checked by the "
-    "oracle only); floats are finite for the round-trip theorem",
+    "template variable values are Python literals of the modelled types (bytes and complex are checked by the "
+    "oracle only); string code points are in 0..0x10FFFF",
     "variable names are distinct and different from the internal name CYLC_TEMPLATE_VARS",
 ]
 
@@ -274,7 +275,7 @@ def _gen_case(rng, kind="value"):
 
 
 def _special_case(rng):
-    """values outside the modelled types or known not to survive: oracle only"""
+    """values outside the modelled types (oracle only) or refused at first start"""
     pool = ["1e999", "-1e999", "[1, 1e999]", "{'a': -1e999}", "(1e999,)", "1e999j", "1+1e999j",
             "...", "[...]", "(1, ...)", "b'a\\xff\\n'", "b''", "[b'x', 1]", "1+2j", "-3.5j", "(1-0j)", "{1j: 2}",
             "{1, 1e999}"]
@@ -300,6 +301,9 @@ class TvarsStream(Stream):
     needs_scratch_home = True
 
     def corpus(self):
+        # the witness-* cases are the former findings (fixed in /repo 7f9125e: eval_var refuses
+        # them at first start); they stay as regression cases: if such a value is accepted again
+        # and cannot be restored the oracle fails with the (now "fixed") signature
         return [
             {"kind": "witness-inf", "vars": [["k0", "1e999"]], "cli": [], "lits": ["inf"]},
             {"kind": "witness-inf-nested", "vars": [["k0", "[1, -1e999]"], ["k1", "2"]], "cli": [], "lits": []},
@@ -345,10 +349,20 @@ class TvarsStream(Stream):
         def run_case(c):
             res = {}
             pairs = [f"{k}={t}" for k, t in c["vars"]]
+            res["rejected"] = []
             try:
                 tv = load_template_vars(template_vars=pairs)
             except InputError:
-                return {"rejected": True}
+                # the first start is refused as a whole: find the offending
+                # variables and start again with the accepted ones only
+                ok = []
+                for k, t in c["vars"]:
+                    try:
+                        load_template_vars(template_vars=[f"{k}={t}"])
+                        ok.append(f"{k}={t}")
+                    except InputError:
+                        res["rejected"].append([k, t])
+                tv = load_template_vars(template_vars=ok)
             res["orig"] = [[k, canon(v)] for k, v in tv.items()]
             d = tempfile.mkdtemp(prefix="c37-")
             try:
@@ -388,7 +402,7 @@ class TvarsStream(Stream):
                 shutil.rmtree(d, ignore_errors=True)
             res["lits"] = [[[ord(ch) for ch in t], lit_result(t)] for t in c["lits"]]
             # interpreter facts used to instantiate the model's Section variables
-            texts = [s for _, s in rows] + list(c["lits"])
+            texts = [s for _, s in rows] + list(c["lits"]) + [t for _, t in res["rejected"]]
             chars = set()
             for t in texts:
                 chars.update(t)
@@ -447,7 +461,7 @@ class TvarsStream(Stream):
         return q.cnat(int(k[1:]))
 
     def coq_case(self, c, r):
-        if "exc" in r or r.get("rejected"):
+        if "exc" in r:
             return None
         orig = dict((k, v) for k, v in r["orig"])
         if not all(_modelled(v) for v in orig.values()) or not all(_modelled(v) for _, v in r["cli"]):
@@ -460,18 +474,18 @@ class TvarsStream(Stream):
         restart = q.copt(r["restart"], lambda tv: q.clist(q.cpair(self._key(k), self._cv(v)) for k, v in tv))
         lits = q.clist(q.cpair(q.clist(q.cz(o) for o in t), self._clit(lr)) for t, lr in r["lits"])
         ftab = q.clist(q.cpair(q.ccodes(a), q.ccodes(b)) for a, b in r["ftab"])
+        rejected = q.clist(q.ccodes(t) for _, t in r["rejected"])
         return q.crecord(c_nonprint=q.clist(q.cz(x) for x in r["nonprint"]), c_ftab=ftab, c_vars=vars_,
-                         c_cli=cli, c_restart=restart, c_lits=lits)
+                         c_cli=cli, c_restart=restart, c_lits=lits, c_rejected=rejected)
 
     # -- property oracle ------------------------------------------------------------------
     def _fail(self, c, r):
         """(text, defect classes) of the first property failure, or None"""
         if "exc" in r:
             return "unexpected exception: " + r["exc"], []
-        if r.get("rejected"):
-            if c.get("kind") in ("value", "special", "hand") or c.get("kind", "").startswith("witness"):
-                return "harness: a generated literal was rejected at first start", []
-            return None
+        if r["rejected"] and c.get("kind") in ("value", "hand"):
+            # every generated value of these kinds has finite floats and modelled types
+            return (f"a restorable literal was refused at first start: {r['rejected'][0][1]!r}"), []
         orig = dict((k, v) for k, v in r["orig"])
         if sorted(k for k, _, _ in r["rows"]) != sorted(orig):
             return f"stored keys {sorted(k for k, _, _ in r['rows'])} differ from the accepted variables {sorted(orig)}", []
@@ -515,7 +529,7 @@ class TvarsStream(Stream):
         return super().classify(c, r, failure)
 
     def key(self, c, r):
-        if "exc" in r or r.get("rejected"):
+        if "exc" in r:
             return None
         for _, v in r["orig"]:
             for x in _walk(v):
@@ -539,23 +553,25 @@ STREAMS = [TvarsStream()]
 
 META = {
     "level_text": (
-        "Coq theorems over Model/PyLit.v: for every value of the modelled literal types (None, bool, int of any size, finite "
+        "Coq theorems over Model/PyLit.v: every value ACCEPTED by eval_var at first start (None, bool, int of any size, "
         "float, str over all code points with any quotes/backslashes/control/non-printable characters, list/tuple/set/dict "
-        "nested to any depth) the literal_eval model applied to repr(value) returns the identical value (c37_roundtrip, full "
-        "proof incl. the quote-choice and \\x/\\u/\\U escape algorithm, by induction over the nested value); the restart "
-        "loader restores every stored variable and a variable given again on the command line wins and is not evaluated "
-        "(c37_restart_restores_and_cli_wins, c37_cli_precedence); without the finiteness restriction the round trip is REFUTED "
-        "(float inf -> 'inf' -> InputError, and the whole restart fails). The model is tied to the code by differential runs: "
-        "generated literals through the real load_template_vars -> put_workflow_template_vars -> sqlite -> "
-        "Scheduler.load_workflow_params_and_tmpl_vars/_load_template_vars (and get_template_vars_from_db); model repr = text "
-        "found in the DB, model parse = eval_var result, model restart = observed template_vars; mutated and hand-written "
-        "texts check that whenever the model parser accepts, eval_var returns that value."),
+        "nested to any depth; no finiteness hypothesis) is read back from its stored repr as the identical value and is "
+        "accepted again (c37_roundtrip: inversion proof 'whatever repr(v) parses to is v' by induction over the nested "
+        "value, incl. the quote-choice and \\x/\\u/\\U escape algorithm); the acceptance check refuses no value with finite "
+        "floats (c37_finite_values_accepted: the forward print/parse round trip); the restart loader restores every "
+        "accepted variable and a variable given again on the command line wins and is not evaluated "
+        "(c37_restart_restores_and_cli_wins, c37_cli_precedence); inf is refused at first start whatever float() does "
+        "(c37_nonfinite_rejected). The model is tied to the code by differential runs: generated literals through the real "
+        "load_template_vars -> put_workflow_template_vars -> sqlite -> Scheduler.load_workflow_params_and_tmpl_vars/"
+        "_load_template_vars (and get_template_vars_from_db); model repr = text found in the DB, model eval_var = real "
+        "eval_var result, model restart = observed template_vars, texts refused at first start are refused by the model; "
+        "mutated and hand-written texts check that whenever the model accepts, eval_var returns that value."),
     "level_note": (
         "CPython's float repr/float() and str.isprintable are Section variables with hypothesis H_float, instantiated per case "
         "from the interpreter; the parser model covers the canonical spelling only (None on other spellings claims nothing); "
-        "bytes, complex and Ellipsis values are outside the model (oracle only). Open findings: non-finite floats and Ellipsis "
-        "are accepted at first start but cannot be restored (known_findings.d/C37.json)."),
-    "technique": "Coq proof (print/parse round trip by nested induction, fuel = text length) + in-Coq differential "
-                 "correspondence on the real put/reload path + value-identity oracle",
+        "bytes and complex values are outside the model (oracle only). The two former findings (non-finite floats, Ellipsis: "
+        "accepted but not restorable) are fixed in /repo 7f9125e and kept as regression witnesses."),
+    "technique": "Coq proof (print/parse inversion and round trip by nested induction, fuel = text length) + in-Coq "
+                 "differential correspondence on the real put/reload path + value-identity oracle",
     "design_ref": "5/C37",
 }
